@@ -809,6 +809,7 @@ RANGES = [
     ("stddev", {}, {"value": (0, None)}), ("var", {}, {"value": (0, None)}), ("bollinger_bands_width", {}, {"value": (0, None)}),
     ("mean_ad", {}, {"value": (0, None)}), ("median_ad", {}, {"value": (0, None)}), ("ui", {}, {"value": (0, None)}), ("mass", {}, {"value": (0, None)}),
     ("dm", {}, {"plus": (0, None), "minus": (0, None)}),
+    ("kdj", {}, {"k": (0, 100), "d": (0, 100)}), ("adxr", {}, {"value": (0, 100)}),
 ]
 BANDS = [("bollinger_bands", {}), ("keltner", {}), ("donchian", {})]       # upperband >= middleband >= lowerband
 
@@ -849,8 +850,8 @@ def check_ranges(repo, rep):
         for i in items:
             try:
                 ok = prove(P, i)
-            except Budget:
-                ok = False
+            except (Budget, ArithmeticError, RecursionError):
+                ok = False          # the proof search gave up: the obligation goes to the witnesses
             if not ok:
                 unproved.append(i)
         bad = None
@@ -939,8 +940,8 @@ def check_ranges(repo, rep):
             decide(name, "bands", what, items, prove, holds)
     rep.extra["ranges"] = {"obligations_proved_for_all_valuations": proved, "refuted": refuted, "not_provable_no_counterexample": open_}
     rep.floor(rid, 30)
-    if proved < 20:
-        raise AnalysisError(f"C15-R6: only {proved} range / order obligations proved (at least 20 on the reference tree): the prover or the interpreter lost ground")
+    if proved < 30:
+        raise AnalysisError(f"C15-R6: only {proved} range / order obligations proved (at least 30 on the reference tree): the prover or the interpreter lost ground")
 
 
 def _input(i, col, tag="c"):
